@@ -14,6 +14,8 @@ CONFIGS = {
 EXTRA_PRELUDE = """    pub struct StB<'p> { pub f: &'p Opq, pub s: DiplomatStrSlice<'p> }
     #[diplomat::opaque]
     pub struct OpLt<'p>(&'p u8);
+    pub struct St2L<'p, 'q> { pub a: DiplomatStrSlice<'p>, pub b: DiplomatStrSlice<'q> }
+    pub struct OuterL<'x> { pub pair: St2L<'x, 'x>, pub n: u8 }
 """
 
 
@@ -33,6 +35,12 @@ def extra_items():
         for r in ["&'a Opq", "Box<OpLt<'a>>", "StB<'a>", "&'a str", "Option<&'a Opq>", "Result<&'a Opq, ()>", "Option<StB<'a>>"]:
             add("<'a>(&'a self, x: %s) -> %s" % (p, r))
             add("<'a>(x: %s) -> %s" % (p, r))
+    # a struct with MORE lifetimes in its definition than the use site has (both slots filled with the one method lifetime; nested in
+    # a one-lifetime struct), static and instance methods, with and without a result that borrows from it
+    for p in ["St2L<'a, 'a>", "OuterL<'a>"]:     # (the optional form is the recorded borrowing_param.rs finding whatever the struct)
+        for r in ["Box<OpLt<'a>>", "St2L<'a, 'a>", "OuterL<'a>", "u8"]:
+            add("<'a>(x: %s) -> %s" % (p, r))
+            add("<'a>(&self, x: %s) -> %s" % (p, r))
     for r in ["Result<(), ()>", "Option<()>", "()", "Result<(), En>", "Result<Strct, ()>"]:
         add("(&self, w: &mut DiplomatWrite) -> %s" % r)
         add("(&self, a: u8, w: &mut DiplomatWrite) -> %s" % r)
